@@ -34,6 +34,9 @@ static void emit(RandSystem& rs, Rng& r) {
         Vector_<SpatialVec> JFW; m.multiplyByFrameJacobian(s, tb, ts, W, JFW);
         for (int i = 0; i < nt; ++i) { std::printf("OUT FRJ %d", i); psv(JFW[i]); std::printf("\n"); }
         Vector JFTF; m.multiplyByFrameJacobianTranspose(s, tb, ts, tF, JFTF); pvec("OUT FRJT", JFTF);
+        { Vector_<Vec3> JSDu; m.calcBiasForStationJacobian(s, tb, ts, JSDu); Vector_<SpatialVec> JFDu; m.calcBiasForFrameJacobian(s, tb, ts, JFDu);
+          for (int i = 0; i < nt; ++i) { std::printf("OUT STB %d %a %a %a\n", i, JSDu[i][0], JSDu[i][1], JSDu[i][2]);
+                                         std::printf("OUT FRB %d", i); psv(JFDu[i]); std::printf("\n"); } }
         Matrix Jm; m.calcSystemJacobian(s, Jm);     // 6nb x nu ; compare column sums against J*ones is weak: print J*W via the matrix
         Vector JmW = Jm * W; for (int b = 0; b < NB; ++b) { std::printf("OUT JMATW %d", b); for (int i = 0; i < 6; ++i) std::printf(" %a", JmW[6 * b + i]); std::printf("\n"); }
         // mass matrix routes
